@@ -16,7 +16,8 @@ other checks (the base features are all present in the families that are expecte
   noname       genes with the default empty name                        (SBML writer substitutes the SBML id)
   nocharge     metabolites with charge None                             (SBML reader returns 0)
   emptyreaction a reaction without metabolites (the shipped `mini` model has one)   (SBML L3V1 rule 21101 forbids it)
-  noobjective  no objective coefficient at all                          (SBML fbc: an objective needs flux objectives)
+  noobjective  no objective coefficient at all, direction max or min    (SBML fbc: an objective needs flux objectives)
+  boundsgrid   13 reactions, one for every combination of lb in {-inf, <0, 0, >0} and ub in {<0, 0, >0, +inf} with lb <= ub
   precision    full-precision doubles (1/3, 0.1+0.2, ...) in stoichiometry, bounds and objective
                (SBML text carries 15 significant digits: C10 compares through `r15`)
 
@@ -43,6 +44,7 @@ FAMILIES = {
     "precision": {"sid_safe": True},
     "emptyreaction": {"sid_safe": True},
     "noobjective": {"sid_safe": True},
+    "boundsgrid": {"sid_safe": True},
 }
 
 # (lb, ub); every lower bound <= 5 so that the base families stay loadable under the non-default Configuration bounds that
@@ -50,13 +52,19 @@ FAMILIES = {
 BOUNDS = [(-1000.0, 1000.0), (0.0, 1000.0), (-1000.0, 0.0), (0.0, 10.0), (-10.0, 10.0), (1.0, 10.0), (-10.0, -1.0), (2.0, 2.0),
           (0.0, 0.0), (-5.0, 1000.0), (0.0, INF), (-INF, INF), (-INF, 0.0), (-INF, -2.0), (3.0, INF), (-2000.0, 3000.0),
           (-3000.0, -2000.0), (0.0, 2500.0), (-0.5, 0.25), (0.001, 99999.5), (-7.0, 7.0), (-1e-06, 12345678.9), (5.0, 1e9),
-          (-999.999999999999, 1000.00000000001), (0.0, 7.0), (-7.0, 0.0), (-10000.0, 10000.0)]
+          (-999.999999999999, 1000.00000000001), (0.0, 7.0), (-7.0, 0.0), (-10000.0, 10000.0),
+          (-INF, 1000.0), (-INF, 5.0), (-5.0, INF), (-1000.0, INF), (-INF, -1000.0), (-2.5, 0.0), (-INF, 0.25)]
+# every sign combination of (lb, ub) that a Reaction accepts; "n"/"p" are replaced by finite negative / positive values
+GRID = [("-inf", "n"), ("-inf", "0"), ("-inf", "p"), ("-inf", "inf"), ("n", "n"), ("n", "0"), ("n", "p"), ("n", "inf"),
+        ("0", "0"), ("0", "p"), ("0", "inf"), ("p", "p"), ("p", "inf")]
+GRID_NEG = [-1000.0, -10.0, -0.5, -2500.0, -1.0, -7.0]
+GRID_POS = [1000.0, 10.0, 0.25, 2500.0, 1.0, 7.0]
 ABOVE = [(1500.0, 2500.0), (1001.0, 1001.0), (1000.5, INF), (20000.0, 30000.0)]
 BELOW = [(-2500.0, -1500.0), (-INF, -1001.0)]
-COEFS = [-3.0, -2.0, -1.0, 1.0, 2.0, 3.0, 0.5, -0.25, 1.5, 59.81, -0.000223, 1e-07, 123456.789012345, -4.0, 10.0]
+COEFS = [-3.0, -2.0, -1.0, 1.0, 2.0, 3.0, 0.5, -0.25, 1.5, 59.81, -0.000223, 1e-07, 123456.789012345, -4.0, 10.0, -1, 2, 1]
 # "tame" models (about two thirds outside the precision family) draw from these: their optimum is compared as well; the
 # others carry magnitudes (1e-07, 123456.789..., 1e9) that make GLPK's answer depend on the pivoting order
-COEFS_TAME = [-3.0, -2.0, -1.0, 1.0, 2.0, 3.0, 0.5, -0.25, 1.5, 59.81, -4.0, 10.0]
+COEFS_TAME = [-3.0, -2.0, -1.0, 1.0, 2.0, 3.0, 0.5, -0.25, 1.5, 59.81, -4.0, 10.0, -1, 2, 1]      # the last three are ints
 WILD_BOUNDS = {(-1e-06, 12345678.9), (5.0, 1e9), (0.001, 99999.5), (-999.999999999999, 1000.00000000001)}
 # the last three are doubles that ruamel.yaml writes back with a changed last digit once they have been read as ScalarFloat
 PRECISE = [1.0 / 3.0, 0.1 + 0.2, 3.141592653589793e5, 1e-12 / 3.0, -2.0 / 7.0, 1234567.0 / 9.0, 5e-324 * 1e300, 0.1,
@@ -88,14 +96,21 @@ NOTE_VALUES = ["v", "some text", "PMID: 12345", "a: b: c", "4", "2.7.1.1", "text
                "3/4 of it", "100%", "under_score", "see http://example.org/x?y=1", "-", "0"]
 RXN_ANN = [("kegg.reaction", "R00001"), ("kegg.reaction", ["R00001", "R00002"]), ("ec-code", "2.7.1.1"), ("ec-code", ["1.1.1.1", "1.1.1.2", "1.1.1.3"]),
            ("bigg.reaction", "PFK"), ("rhea", ["10000", "10001"]), ("metanetx.reaction", "MNXR100024"), ("sbo", "SBO:0000176"),
-           ("sbo", "SBO:0000627"), ("sbo", "SBO:0000185"), ("biocyc", "META:PGLUCISOM-RXN")]
+           ("sbo", "SBO:0000627"), ("sbo", "SBO:0000185"), ("biocyc", "META:PGLUCISOM-RXN"),
+           # a later identifier that is a prefix / suffix / inner part of the first one (a membership test on a str would drop it)
+           ("ec-code", ["1.1.1.27", "1.1.1.2"]), ("pubmed", ["10108", "1010", "108"]), ("kegg.reaction", ["R000012", "R00001", "00001"]),
+           ("rhea", ["12345", "345", "234"])]
 MET_ANN = [("chebi", "CHEBI:17234"), ("chebi", ["CHEBI:17234", "CHEBI:4167"]), ("kegg.compound", "C00031"), ("bigg.metabolite", "glc__D"),
            ("inchikey", "WQZGKKKJIJFFOK-GASJEMHNSA-N"), ("hmdb", ["HMDB00122", "HMDB0000122"]), ("sbo", "SBO:0000247"),
-           ("metanetx.chemical", "MNXM41"), ("seed.compound", "cpd00027"), ("pubchem.compound", "5793")]
+           ("metanetx.chemical", "MNXM41"), ("seed.compound", "cpd00027"), ("pubchem.compound", "5793"),
+           ("kegg.compound", ["C00031", "C0003"]), ("pubchem.compound", ["57931", "5793", "793"]), ("chebi", ["CHEBI:172345", "CHEBI:17234", "17234"])]
 GENE_ANN = [("ncbigene", "945803"), ("uniprot", "P0A6T1"), ("uniprot", ["P0A6T1", "P0A6T2"]), ("sbo", "SBO:0000243"),
-            ("ncbiprotein", "NP_416237.1"), ("ecogene", "EG10368"), ("asap", "ABE-0005800"), ("refseq_locus_tag", "b1779")]
-GROUP_ANN = [("sbo", "SBO:0000633"), ("go", "GO:0006096"), ("kegg.pathway", ["eco00010", "eco00020"])]
-MODEL_ANN = [("taxonomy", "511145"), ("bigg.model", "e_coli_core"), ("doi", "10.1000/xyz123")]
+            ("ncbiprotein", "NP_416237.1"), ("ecogene", "EG10368"), ("asap", "ABE-0005800"), ("refseq_locus_tag", "b1779"),
+            ("uniprot", ["P0A6T12", "P0A6T1", "A6T1"]), ("ncbigene", ["9458031", "945803"]), ("refseq_locus_tag", ["b17791", "b1779", "1779"])]
+GROUP_ANN = [("sbo", "SBO:0000633"), ("go", "GO:0006096"), ("kegg.pathway", ["eco00010", "eco00020"]),
+             ("go", ["GO:00060961", "GO:0006096"]), ("kegg.pathway", ["eco000101", "eco00010", "00010"])]
+MODEL_ANN = [("taxonomy", "511145"), ("bigg.model", "e_coli_core"), ("doi", "10.1000/xyz123"),
+             ("pubmed", ["101088", "10108", "0108"]), ("taxonomy", ["5111451", "511145"])]
 GROUP_KINDS = ["collection", "classification", "partonomy"]
 
 
@@ -147,6 +162,8 @@ def build(family, seed, index):
     rng = random.Random(f"{family}/{seed}/{index}")
     n_mets = rng.randint(1, 4)
     n_rxns = rng.randint(1, 5)
+    if family == "boundsgrid":
+        n_mets, n_rxns = rng.randint(2, 4), len(GRID)
     awkward = family == "awkward"
     digits = family == "digits"
 
@@ -215,6 +232,19 @@ def build(family, seed, index):
             coefs[parts[0]] = -coefs[parts[0]]
         r.add_metabolites(coefs)
         r.bounds = rng.choice(bounds_pool)
+        if family == "boundsgrid":
+            def val(code, other=None):
+                if code == "-inf":
+                    return -INF
+                if code == "inf":
+                    return INF
+                if code == "0":
+                    return 0.0
+                return rng.choice(GRID_NEG if code == "n" else GRID_POS)
+            lo, hi = val(GRID[i][0]), val(GRID[i][1])
+            if lo > hi:
+                lo, hi = hi, lo
+            r.bounds = (lo, hi)
         if rng.random() < 0.75:
             r.gene_reaction_rule = _rule(rng, gene_ids)
         r.notes = _notes(rng, 0.4)
@@ -246,7 +276,7 @@ def build(family, seed, index):
     oc = OBJ_COEFS + (PRECISE[:4] if family == "precision" else [])
     if family != "noobjective":
         set_objective(m, {r: rng.choice(oc) for r in objr})
-    m.objective_direction = "min" if family == "min" else "max"
+    m.objective_direction = "min" if (family == "min" or (family == "noobjective" and rng.random() < 0.5)) else "max"
     # groups
     groups = []
     # a gene and a group must not share an id: both get the SBML prefix "G_" (adjacent observation, not generated)
@@ -281,11 +311,11 @@ def build(family, seed, index):
 def cases(tier, seed, per_family=None):
     """-> [(family, seed, index)]"""
     if per_family is None:
-        per_family = {"quick": {"plain": 400, "min": 150, "awkward": 400, "above": 40, "digits": 30, "genegroup": 24, "noname": 24,
-                                "nocharge": 24, "precision": 100, "emptyreaction": 16, "noobjective": 16},
-                      "thorough": {"plain": 2000, "min": 750, "awkward": 2000, "above": 150, "digits": 100, "genegroup": 60,
-                                   "noname": 60, "nocharge": 60, "precision": 500, "emptyreaction": 30,
-                                   "noobjective": 30}}[tier]
+        per_family = {"quick": {"plain": 800, "min": 300, "awkward": 800, "above": 60, "digits": 40, "genegroup": 30, "noname": 30,
+                                "nocharge": 30, "precision": 200, "emptyreaction": 20, "noobjective": 20, "boundsgrid": 40},
+                      "thorough": {"plain": 6000, "min": 2000, "awkward": 6000, "above": 400, "digits": 200, "genegroup": 120,
+                                   "noname": 120, "nocharge": 120, "precision": 1500, "emptyreaction": 60,
+                                   "noobjective": 60, "boundsgrid": 300}}[tier]
     out = []
     for fam, n in per_family.items():
         out.extend((fam, seed, i) for i in range(n))
